@@ -1007,6 +1007,26 @@ func TestVerifC11(t *testing.T) {
 		c11Hand("b-names", "", []c11Node{name(N(false, 0, "N000"), c11Int{0, 0}), name(N(false, 0, "N001"), c11Int{0, 1}), name(N(false, 0, "N002"), c11Int{0, 2}),
 			name(N(false, 0, "N003"), c11Int{2, 0x1234}), name(N(false, 0, "N004"), c11Int{4, 0xdeadbeef}), name(N(false, 0, "N005"), c11Int{8, 0x0123456789abcdef}),
 			name(N(false, 0, "N006"), c11Str{[]byte("hello")}), name(N(false, 0, "N007"), c11Buf{1, 4, []byte{1, 2, 3, 4}}), name(N(true, 0, "N008"), i1(7))}),
+		// the program of the non-vacuity example of C11.flat_programs_agree (Props/C11.lean): a table of Name(NAME, integer)
+		// declarations, every integer width - the theorem is about the model, this case ties it to the real parser
+		c11Hand("b-flat-names", "", []c11Node{name(N(false, 0, "N000"), c11Int{1, 7}), name(N(false, 0, "_X01"), c11Int{0, 0}),
+			name(N(false, 0, "ABCD"), c11Int{8, 0x1122334455667788}), name(N(false, 0, "N003"), c11Int{2, 0x1234}),
+			name(N(false, 0, "N004"), c11Int{0, 5}), name(N(false, 0, "N005"), c11Int{4, 9})}),
+		// the program of the non-vacuity example of C11.nested_programs_agree: devices nested three deep with forced PkgLength
+		// widths 1, 2 and 3, the name N000 reused in three scopes
+		c11Hand("b-nested-devices", "", []c11Node{
+			&c11List{kind: "device", w: 1, name: N(false, 0, "DEV0"), kids: []c11Node{name(N(false, 0, "N000"), c11Int{1, 1}),
+				&c11List{kind: "device", w: 2, name: N(false, 0, "DEV1"), kids: []c11Node{name(N(false, 0, "N000"), c11Int{2, 0x1234}),
+					&c11List{kind: "device", w: 3, name: N(false, 0, "DEV2")}}},
+				name(N(false, 0, "N001"), c11Int{0, 0})}},
+			name(N(false, 0, "N000"), c11Int{8, 0x0123456789abcdef})}),
+		// the program of the non-vacuity example of C11.multi_table_programs_agree: three tables of the nested fragment
+		c11Hand("b-three-tables-devices", "",
+			[]c11Node{&c11List{kind: "device", w: 1, name: N(false, 0, "DEV0"), kids: []c11Node{name(N(false, 0, "N000"), c11Int{1, 1})}},
+				name(N(false, 0, "N001"), c11Int{0, 1})},
+			[]c11Node{name(N(false, 0, "N002"), c11Int{4, 0xdeadbeef}),
+				&c11List{kind: "device", w: 2, name: N(false, 0, "DEV1"), kids: []c11Node{&c11List{kind: "device", w: 1, name: N(false, 0, "DEV0")}}}},
+			[]c11Node{name(N(false, 0, "N003"), c11Int{0, 7})}),
 		c11Hand("b-device-nesting", "", []c11Node{cont("scope", N(false, 0, "_SB_"), cont("device", N(false, 0, "DEV0"), name(N(false, 0, "_HID"), c11Int{4, 0x0a0cd041}),
 			cont("device", N(false, 0, "DEV1"), name(N(false, 0, "N000"), i1(1)))))}),
 		c11Hand("b-scope-absolute-2seg", "scope-absolute", []c11Node{cont("scope", N(false, 0, "_SB_"), cont("device", N(false, 0, "DEV0"))),
